@@ -487,6 +487,10 @@ func PrintOutcome(o Outcome) {
 	fmt.Println("VERIF-OUTCOME " + string(b))
 }
 
+// SetTiKVOracleFault makes the n-th following timestamp request to the TiKV client model's PD
+// oracle fail (0: none). Natively it does nothing: zzc11.SetOracleFault wraps the mock store's oracle.
+func SetTiKVOracleFault(n int) {}
+
 // SetTiKVRegions tells the executor's TiKV client model where the key space is split into regions
 // (ascending keys). Natively it does nothing: the mock cluster is bootstrapped with the split keys.
 func SetTiKVRegions(splits [][]byte) {}
